@@ -43,10 +43,13 @@ def main():
         with open(a.replay) as f:
             body = json.load(f)
         try:
+            harness.apply_env(body.get('env'))
             res = mod.replay(harness.dec(body['case']))
         except HarnessError as ex:
             print(f'HARNESS-ERROR property={prop} {ex}')
             return 2
+        finally:
+            harness.apply_env(None)
         if res:
             sig, msg = res
             if harness.open_finding(prop, sig):
@@ -65,7 +68,11 @@ def main():
     try:
         skip = os.environ.get('VERIF_SKIP_REGRESS') == '1'  # self-test only: measure the generators alone
         for path, body in ([] if skip else harness.regress_cases(prop)):
-            res = mod.replay(harness.dec(body['case']))
+            harness.apply_env(body.get('env'))
+            try:
+                res = mod.replay(harness.dec(body['case']))
+            finally:
+                harness.apply_env(None)
             if res:
                 sig, msg = res
                 if harness.open_finding(prop, sig):
